@@ -19,6 +19,9 @@ CHECKS = {
  "C10": ("exploration", "runtime monitoring: direct drive of all 15 provers/verifiers with reflection-generated perturbations of every public input, proof field and the context",
          "Completeness on a boundary lattice of witnesses (0, +-1, +-(2^l-1), random, scalar 1/q-1) and binding by substitution: every public-input field replaced by another valid instance's, same-typed inputs swapped, context changed, every proof field replaced by the same field of another valid proof (same and other statement) and by +-1/negation/zero, and a witness 600 bits beyond the range; an accepted perturbed triple is the violation.",
          "Soundness is probed by substitution, not established; panics inside Verify are tallied as not-accepted.", "5/C10"),
+ "C11": ("exploration", "runtime monitoring with a pinned crypto/rand.Reader: pairwise comparison of published nonce commitments across a lattice of signing contexts, with positive controls",
+         "All pairs of ~25-50 FROST signing contexts differing in message, signer set, session id, variant or share are started under constant, cycling and honest random sources and their (D_i,E_i) compared; BIP-340 (key,message) pairs likewise with constant/nil/honest aux; equal-context controls prove the pin works.",
+         "crypto/rand.Reader swapped process-wide in the child; positive control required.", "5/C11"),
  "C12": ("exploration", "differential runtime monitoring of Paillier, CRT exponentiation and MtA against a math/big reference",
          "Bit-exact comparison of EncWithNonce/Add/Mul with the reference, Dec inverse, randomness recovery, acceptance set of ValidateCiphertexts/Dec, refusal outside [-(N-1)/2,(N-1)/2], Modulus.Exp/ExpI on edge operands, and alpha+beta=a*b over the integers for MtA on a scalar lattice with verified proofs.",
          "Trusts verif/ref Paillier; keys from the prime pool.", "5/C12"),
